@@ -35,6 +35,31 @@ class VClock:
     def __call__(self):
         return self.t
 
+    def patch_module(self, mod):
+        """Put the virtual clock behind every way `mod` can have bound the standard clocks: its `time` module global and any
+        global that IS one of time.time / monotonic / perf_counter / *_ns / sleep (from time import ...).  -> restore()"""
+        import time as _real
+        shim = self.module_shim()
+        saved = []
+        fns = ("time", "time_ns", "monotonic", "monotonic_ns", "perf_counter", "perf_counter_ns", "sleep")
+        for name, val in list(vars(mod).items()):
+            if val is _real or isinstance(val, _TimeShim):          # (another live world's shim is replaced like the real thing)
+                saved.append((name, val))
+                setattr(mod, name, shim)
+                continue
+            owner = getattr(val, "__self__", None)
+            for fn in fns:
+                if val is getattr(_real, fn) or (isinstance(owner, _TimeShim) and getattr(val, "__name__", "") == getattr(getattr(_TimeShim, fn), "__name__", fn)
+                                                 and getattr(val, "__func__", None) is getattr(_TimeShim, fn)):
+                    saved.append((name, val))
+                    setattr(mod, name, getattr(shim, fn))
+                    break
+
+        def restore():
+            for name, val in saved:
+                setattr(mod, name, val)
+        return restore
+
     def module_shim(self):
         """Stands in for the `time` module global of a library module: every clock the library may legitimately read
         (wall clock, monotonic, perf_counter, their _ns forms) follows the virtual clock - the monotonic family with a
